@@ -666,7 +666,12 @@ func (e *Engine) builtin(st *State, fr *Frame, dst *ssa.Call, b *ssa.Builtin, cc
 				set(ConstBV(uint64(x.Cap), 64))
 			}
 		case StringVal:
-			set(ConstBV(uint64(len(x.Bytes)), 64))
+			if x.Atom != nil {
+				// was: silently 0. Concrete members have their length, anonymous members an uninterpreted one.
+				set(e.atomLen(x))
+			} else {
+				set(ConstBV(uint64(len(x.Bytes)), 64))
+			}
 		case MapVal:
 			set(ConstBV(uint64(len(e.mapObj(st, x).Entries)), 64))
 		case ArrayVal:
